@@ -435,24 +435,6 @@ def _safe_function_names(p, mito):
     return out
 
 
-def _branches(walker, param):
-    """{ast class name: body statements} for `if/elif isinstance(param, ast.X)` chains at the top of the walker"""
-    out = {}
-
-    def visit(stmts):
-        for st in stmts:
-            if isinstance(st, ast.If):
-                t = st.test
-                if isinstance(t, ast.Call) and isinstance(t.func, ast.Name) and t.func.id == "isinstance" and t.args and isinstance(t.args[0], ast.Name) and t.args[0].id == param:
-                    ts = t.args[1]
-                    for e in (ts.elts if isinstance(ts, ast.Tuple) else [ts]):
-                        d = dotted(e)
-                        if d and d.startswith("ast."):
-                            out[d.split(".")[1]] = st.body
-                visit(st.orelse)
-    visit(walker.node.body)
-    return out
-
 
 def _derivation(m, e, params, seen=None):
     """None if e derives from a parameter by identity / .strip() only; else a description of the rewriting"""
